@@ -17,16 +17,16 @@ P = {
    text="All inputs (by the comparison-only argument) of length <= 7 (8 thorough) for single selection and <= 6 (7) for bulk selection, every index / every subset of indexes in three presentations, under every pivot sequence the generator could produce; value, post-selection ordering and key order are compared with a sort-based reference on every execution (a changed multiset or a modified cell outside the view is counted, not reported: that is C03). Above the bound: all sequences over 3 keys, 3 pivot policies, <= 1 (2) deviations; every length 13..96 (250) x 6 input families x index sets under always-first / always-last / alternating-ends / middle pivots (recursion depth n-1), single and bulk, also on reversed views. The empty array with the empty request; shared ArcArray / borrowing CowArray handles (all pivots; also in the checked build in the quick tier); call histories: every ordered pair of (array, request) combinations back to back on one thread, including rejected requests as the first call.",
    note="Exhaustive within the length bound; beyond it only deviation-bounded. Assumes the pivot hook captures all nondeterminism (self-checked by re-execution).", ref="4/C02"),
  "C03": dict(engine=E1, technique="exhaustive enumeration of layouts (axis permutation x step x offset inside a sentinel parent) x contents x pivot sequences; lane-multiset and guard-cell monitor on the parent buffer before/after every mutating call",
-   text="Every mutating routine is run on every view layout of small 1-D..4-D arrays embedded in a sentinel-filled parent; after each execution every lane must hold the same multiset (bit patterns), and every parent cell outside the view must be unchanged; a second ArcArray handle sharing the buffer / an array borrowed by a CowArray must be unchanged; long lanes under adversarial pivot policies.",
+   text="Every mutating routine is run on every view layout of small 1-D..4-D arrays embedded in a sentinel-filled parent; after each execution every lane must hold the same multiset (bit patterns), and every parent cell outside the view must be unchanged; a second ArcArray handle sharing the buffer / an array borrowed by a CowArray must be unchanged; long lanes under adversarial pivot policies. The caller's own view is inspected after every 1-D call (length and contents).",
    note="1-D: complete over weak-order patterns x strides x all pivots; n-D: finite content family x all layouts x deviation-bounded pivots.", ref="4/C03"),
  "C04": dict(engine=E1, technique="exhaustive enumeration of all missing/non-missing masks up to a length bound x strides x offsets x all 14 MaybeNan element types on the real remove_nan_mut, with address-set, multiset (of the returned view), idempotence and determinism oracles (thorough: same enumeration re-run under Miri and AddressSanitizer as secondary monitors)",
    text="Behaviour of NaN removal depends only on the missing-value mask, so all masks of length 0..8 (10) x strides {1,2,3,-1,-2,-3} x offsets x every MaybeNan type is every input up to that length; returned view must be the filter of the input as a multiset, alias only input cells, contain no missing value, be idempotent and deterministic; lanes of n-D arrays along every axis in every layout via map_axis_skipnan_mut / quantile_axis_skipnan_mut. The n-D lanes go through quantile_axis_skipnan_mut with strategy, q and pivot policy rotating with the case.",
    note="Complete up to the mask length bound. Value-level oracle cannot see UB that happens to produce right values; Miri/ASan in the thorough tier watch the same executions for that.", ref="4/C04"),
  "C05": dict(engine=E1, technique="exhaustive enumeration of all arrays over a 7-value float alphabet (NaN, infinities, signed zeros, ties) up to length 5 and of weak-order patterns for integers, x shapes 0-D..4-D incl. zero-length axes x all layouts x static/dynamic dimensionality, against an independent scan",
-   text="All float arrays over {NaN,-inf,-1,-0.0,0.0,1,+inf} of length 0..5 (6) in 1-D under several strides, all weak-order integer patterns, and NaN at every position of n-D arrays in every layout, the strict extremum at every position of 3-D/4-D shapes, long arrays up to 1100 (4100) elements: result must designate a true extremum, arg and value forms agree, EmptyInput iff no elements, UndefinedOrder iff a NaN is present.",
+   text="All float arrays over {NaN,-inf,-1,-0.0,0.0,1,+inf} of length 0..5 (6) in 1-D under several strides, all weak-order integer patterns, and NaN at every position of n-D arrays in every layout, the strict extremum at every position of 3-D/4-D shapes, long arrays up to 1100 (4100) elements: result must designate a true extremum, arg and value forms agree, EmptyInput iff no elements, UndefinedOrder iff a NaN is present. The integer patterns are also run as arrays of NotNone<i32>, the crate's own ordered wrapper.",
    note="Exhaustive over the alphabet and length bound, not over all floats (min/max only compare, so the alphabet covers every comparison outcome class).", ref="4/C05"),
  "C06": dict(engine=E1, technique="exhaustive enumeration of all arrays over small value/weight alphabets (cancelling signs, offsets, non-representable decimals) up to a length bound x shapes x axis x independent layouts of data and weights, against an exact rational-arithmetic oracle with a forward-error bound",
-   text="Every data/weight array over the stated alphabets up to length 5 (6), f64/f32/i32/i64, all layout pairs: result compared with the exact rational value (integers: exact equality incl. the type's own division, also for the axis forms; floats: |err| <= c*n*u*sum|terms|); a wide-magnitude alphabet 1e-300..1e300 for mean / harmonic / geometric mean. Axis forms on shapes up to 5-D; data and weights that are views of one buffer (different strides, transpose, overlapping, a lane of the matrix as axis weights).",
+   text="Every data/weight array over the stated alphabets up to length 5 (6), f64/f32/i32/i64, all layout pairs: result compared with the exact rational value (integers: exact equality incl. the type's own division, also for the axis forms; floats: |err| <= c*n*u*sum|terms|); a wide-magnitude alphabet 1e-300..1e300 for mean / harmonic / geometric mean. Axis forms on shapes up to 5-D; data and weights that are views of one buffer (different strides, transpose, overlapping, a lane of the matrix as axis weights). Narrow integers (i8 / u8): per-axis forms against the whole-array routine wherever the latter returns on every lane.",
    note="Exhaustive over an alphabet, not over all floats; overflow/underflow regimes outside the alphabet. Bound constants are textbook forward-error bounds with margin >= 4 over the worst observed ratio (reported in evidence).", ref="4/C06"),
  "C07": dict(engine=E1, technique="exhaustive enumeration over data x weight x ddof x order x offset alphabets against exact rational arithmetic with forward-error bounds of the documented algorithms (corrected two-pass moments, West's weighted variance)",
    text="All data arrays over the alphabet at offsets 0..1e8 up to length 5 (6), all weight vectors over {0,.25,1,3} with positive total, ddof {0,.5,1}, orders 0..8, a size sweep up to 1100 (4100) elements and extreme scales: central moments, weighted variance/std, skewness, kurtosis and axis forms compared with exact rational values. Extreme weight ratios (weights 1e-100..1e20 next to data 1e30 / 1e200; f32 analogue) against the exact value with the one-pass algorithm's bound, and one negative weight with positive running sums.",
@@ -35,7 +35,7 @@ P = {
    text="All (r,o) matrices up to 3x3 / 2x4 over {-1,0,.5,2} at offsets {0,1e6}, ddof in {0,1,.5,o-.25}, C/F/transposed/stepped/reversed layouts, f64 and f32, and structured families up to 8x64; Pearson invariance under rescaling by 2, .5x+1, 3x-10, 1e-9, 1e-13, 1e9 and sign flips.",
    note="Exhaustive over an alphabet for small sizes; structured (not exhaustive) for large sizes.", ref="4/C08"),
  "C09": dict(engine=E1, technique="exhaustive enumeration of all operand pairs over a 4-value alphabet up to length 4 x all pairs of layouts x ownership kinds, against a logical-index reference loop with exact (BigInt) arithmetic",
-   text="Every pair of arrays over the alphabet, every pairing of layouts for the two operands (1-D, 2-D complete; covering in 3-D/4-D), owned/view/view_mut/Arc/Cow operands, i32/i64/f64/BigInt: all ten measures compared with exact values; symmetry and identity laws; operands aliasing one buffer (different strides, transpose, overlapping windows). Infinite elements and overflowing squares (all pairs of length <= 3 over {0,1,+-BIG,+-inf}) against the IEEE value of the documented formulas.",
+   text="Every pair of arrays over the alphabet, every pairing of layouts for the two operands (1-D, 2-D complete; covering in 3-D/4-D), owned/view/view_mut/Arc/Cow operands, i32/i64/f64/BigInt: all ten measures compared with exact values; symmetry and identity laws; operands aliasing one buffer (different strides, transpose, overlapping windows). Infinite elements and overflowing squares (all pairs of length <= 3 over {0,1,+-BIG,+-inf}) against the IEEE value of the documented formulas. Every pair of arrays of shape (2,3), (3,2), (1,4), (2,1,3) over two values.",
    note="Exhaustive over an alphabet and the layout generator's space.", ref="4/C09"),
  "C10": dict(engine=E1, technique="exhaustive enumeration of p, q vectors over an alphabet incl. zeros and NaN x independent layouts, against exactly summed per-term f64 values; algebraic identities checked on the same cases",
    text="All p, q of length 1..5 over {0,.1,.25,.5,1,2,NaN} and all normalised vectors over eighths up to length 4, all layout pairs in 1-D..3-D, a size sweep up to 1100 (4100), tiny entries, aliasing operands, f64/f32. The alphabet also holds -0.0 and a subnormal (1e-310 / 1e-40); the KL quotient of the reference is formed in the element type.",
@@ -56,7 +56,7 @@ P = {
    text="All inputs (comparison-only argument) of length 1..8, every pivot position, strides {1,2,-1,3,-2}, three element types incl. type extremes and a non-Copy type; long arrays up to 2100 (4200) elements: returned index == number of strictly smaller elements, partition post-condition, no panic (multiset and guard cells are observed and counted; reporting them is C03's). Fourth element type: NotNone<i32>, the crate's own hand-written ordered wrapper. Fifth element type: [i64; 3] (wider than two machine words).",
    note="Complete up to the length bound.", ref="4/C15"),
  "C16": dict(engine=E1, technique="stateless DFS over all pivot sequences for every in-range and out-of-range request on arrays of length 0..6, in builds with and without debug assertions / overflow checks; oracle: must / must not unwind",
-   text="Every weak-order pattern of length 0..6 (7), get/partition at every in-range position and six out-of-range ones, bulk selection with out-of-range entries mixed in at every position; request lists of 33..130 entries; Bins::index and Grid::index over all small edge sets and index tuples incl. wrong arity and positions next to usize::MAX and 2^63. Call histories: every sequence of 2 calls from a menu of 80 and every sequence of 3 bulk calls on one thread (the verdict of a call must not depend on earlier calls).",
+   text="Every weak-order pattern of length 0..6 (7), get/partition at every in-range position and six out-of-range ones, bulk selection with out-of-range entries mixed in at every position; request lists of 33..130 entries; Bins::index and Grid::index over all small edge sets and index tuples incl. wrong arity and positions next to usize::MAX and 2^63. Call histories: every sequence of 2 calls from a menu of 80 and every sequence of 3 bulk calls on one thread (the verdict of a call must not depend on earlier calls). Edges reach Bins / Grid through Vec, fresh Array1 and narrowed Array1 constructors.",
    note="Complete up to the length bound, both profiles in every tier.", ref="4/C16"),
  "C17": dict(engine=E1, technique="exhaustive enumeration of the decision table routine x emptiness x shape relation x q validity x axis x layout on the real routines, against a hand-written decision function",
    text="Every Result-returning public routine of the anchored files x first-input shapes x second-input relation x q lists x axes x element types x layouts: variant and payload must match the decision function; never a panic; zero total weight on non-empty inputs is not an error.",
@@ -65,10 +65,10 @@ P = {
    text="Bulk quantiles vs single quantiles, bulk selection vs single selection, central_moments vs central_moment bit for bit, axis forms of the weighted family vs whole-array routine per lane; 2-3 long lanes per bulk call; long lanes under adversarial pivot policies. Axis forms on shapes up to 5-D, ddof {0, .5, 1}, equal non-unit weights. For n <= 4 every request list of n and n+1 positions with repeats.",
    note="Complete over the request-list space stated; pivots all for N<=4, deviation-bounded above.", ref="4/C18"),
  "C19": dict(engine=E1, technique="exhaustive enumeration of patterns x all ordered q pairs of the grid x strategies x pivot sequences; oracle-free order laws (monotonicity, bounds, strategy ordering, permutation and relabelling invariance)",
-   text="Every multiset of ranks up to size 5 (6) x every arrangement, i8/i64/N64 tables (spread, extremes, 2x+1, beyond 2^53), all q pairs from the boundary grid, both profiles. Short bulk requests: every list of one or two (half of three) q values from seven, in any order, for n = 2..9.",
+   text="Every multiset of ranks up to size 5 (6) x every arrangement, i8/i64/N64 tables (spread, extremes, 2x+1, beyond 2^53), all q pairs from the boundary grid, both profiles. Short bulk requests: every list of one or two (half of three) q values from seven, in any order, for n = 2..9. Fractional NotNone<N64> lanes through quantile_mut and float lanes (ties in adjacent pairs, NaNs interleaved) through quantile_axis_skipnan_mut.",
    note="Complete up to the length bound over the q grid.", ref="4/C19"),
  "C20": dict(engine=E1, technique="exhaustive enumeration of every representation (all layouts x ownership kinds x static/dynamic dimensionality) of canonical arrays for every public routine; differential against the canonical result / exact oracle",
-   text="For each routine and each canonical array in 1-D..4-D: every layout of the generator, owned/view/view_mut/Arc/Cow, IxN/IxDyn; second operands and weights in a different (when possible contiguous) memory order. Fallible calls (empty axes, invalid q, empty request lists) must have the same outcome for dynamic / static / shared / column-major / copy-on-write representations; binary routines on two views of one buffer must equal the same call on separate copies. Request lists handed over as reversed views.",
+   text="For each routine and each canonical array in 1-D..4-D: every layout of the generator, owned/view/view_mut/Arc/Cow, IxN/IxDyn; second operands and weights in a different (when possible contiguous) memory order. Fallible calls (empty axes, invalid q, empty request lists) must have the same outcome for dynamic / static / shared / column-major / copy-on-write representations; binary routines on two views of one buffer must equal the same call on separate copies. Request lists handed over as reversed views. All five bin-building strategies on every 1-D representation; GridBuilder with FreedmanDiaconis / Auto on every 2-D one.",
    note="Exhaustive over the representation generator for fixed canonical contents.", ref="4/C20"),
 }
 
@@ -107,7 +107,7 @@ def main():
             {"name": "E2", "path": "mc/src/bin/c11.rs", "serves_properties": ["C11"], "kind_free_text": "stateright 0.31 breadth-first explicit-state search; every transition executes the real Histogram::add_observation"},
         ],
         "checks": checks,
-        "notes": "All checks: exit 0 = held on everything explored, exit 1 + VIOLATION line = violation, exit 2 = machinery failure. Every check runs its harness in two build profiles (release; release + debug assertions + overflow checks), except C08 whose quick tier runs release only and C02 whose quick tier runs the checked build on two sub-harnesses. known_findings.json lists recorded defects (open: K1 for C01/C19, K2 for C17) and repaired ones (fixed: D1-D7). seeded/ holds 266 property-breaking changes with demonstrations; seeded/RESULTS.md records which checks detect which. COVERAGE.md lists every sub-harness with its bounds and measured counts.",
+        "notes": "All checks: exit 0 = held on everything explored, exit 1 + VIOLATION line = violation, exit 2 = machinery failure. Every check runs its harness in two build profiles (release; release + debug assertions + overflow checks), except C08 whose quick tier runs release only and C02 whose quick tier runs the checked build on two sub-harnesses. known_findings.json lists recorded defects (open: K1 for C01/C19, K2 for C17) and repaired ones (fixed: D1-D7). seeded/ holds 301 property-breaking changes with demonstrations; seeded/RESULTS.md records which checks detect which. COVERAGE.md lists every sub-harness with its bounds and measured counts.",
         "not_applicable": na,
     }
     with open(os.path.join(VERIF, "MANIFEST.json"), "w") as f:
